@@ -14,4 +14,8 @@ IndInit == /\ cum \in [Signals -> Int] /\ seen \in [Signals -> Int]
            /\ rep \in [Signals -> Int] /\ delivered \in [Signals -> Int]
            /\ phase \in Phases /\ res \in Results /\ att \in Int
            /\ IndInv
+
+\* non-vacuity probes (a counterexample is expected)
+ProbeKeys == ~(ZeroReports = "keys" /\ Cardinality(Signals) = 4 /\ Attempts > 5 /\ phase = "waitprev" /\ \E s \in Signals : delivered[s] > 1000 /\ cur[s] = -1)
+ProbeNever == ~(ZeroReports = "never" /\ Cardinality(Signals) = 4 /\ Attempts > 5 /\ phase = "accepted" /\ \E s \in Signals : rep[s] > 1000)
 =============================================================================
